@@ -488,6 +488,31 @@ def r19_eval(ctx, repo):
                                    "resource)")
                         fail("range bytes", f"{cfg}: read_range_cached({a}, "
                              f"{b}) -> {r!r}, expected {res[a:b]!r}{why}")
+    # the server answers the first request with an error page, then
+    # recovers: the same file object must read the resource afterwards
+    for (Ln, c, keep) in ((7, 3, 2), (60, 16, 2)):
+        res = bytes((i % 251) + 1 for i in range(Ln))
+        try:
+            m = Model(repo, res, c, keep, outage=1)
+            first = m.call("read", 2)
+        except AnalysisError as e:
+            if "cannot be evaluated" not in str(e):
+                raise
+            # the constructor itself contacts the server: a new object
+            # after the outage is the only way on – nothing to check
+            continue
+        n_eval += 1
+        m.call("seek", 0)
+        r = m.call("read")
+        m.call("seek", 0, 2)
+        t = m.call("tell")
+        if r != ("ok", res) or t != ("ok", Ln):
+            fail("read bytes", f"resource of {Ln} bytes, chunk size {c}: the "
+                 f"first request is answered with a 503 error page (read(2) "
+                 f"-> {first!r}); after the server recovered read() -> "
+                 f"{r!r}, seek(0, 2); tell() -> {t!r}; expected the "
+                 f"resource's {Ln} bytes: the length of the error page was "
+                 "kept as the length of the resource")
     # two open resources do not see each other's chunks
     resA, resB = bytes(range(1, 9)), bytes(range(101, 109))
     ma = Model(repo, resA, 3, 2)
